@@ -2,6 +2,7 @@ import GwModel.MergeDef
 import GwModel.MergeSchema
 import GwModel.Route
 import GwModel.Gen.Facts
+import GwModel.MergeLocs
 /-! # C03 — Merging is a conservative union of the service schemas -/
 namespace Props.C03
 open Mg Facts
@@ -51,5 +52,19 @@ theorem introspection_stays_at_the_gateway (srcs : List Route.Src) (internal : R
 
 example : Route.urlsFor [⟨"A", [("User", ["id", "a"])]⟩, ⟨"B", [("User", ["id"]), ("Query", ["__schema"])]⟩] ⟨"gw", [("Node", ["id"])]⟩ ["Node"] "User" "id" = ["A", "B"] ∧
           Route.urlsFor [⟨"B", [("Query", ["__schema"])]⟩] ⟨"gw", [("Query", ["__schema", "node"])]⟩ ["Node"] "Query" "__schema" = ["gw"] := by decide
+
+
+/-- **a directive that merges allows every location any of its definitions allows, and nothing else** (`Ml.mergeLocs`,
+    the model of mergeDirectiveLocations, tied by L2.mergelocs) -/
+theorem a_merged_directive_allows_the_union_of_locations {α : Type} [DecidableEq α] (isTS : α → Bool) (l1 l2 r : List α)
+    (h : Ml.mergeLocs isTS l1 l2 = some r) (x : α) : x ∈ r ↔ x ∈ l1 ∨ x ∈ l2 := Ml.mergeLocs_mem isTS l1 l2 r h x
+
+/-- **where a client may write the directive is what each service said**: no service's query that uses the directive
+    becomes invalid, and none becomes valid that a service would refuse -/
+theorem a_merged_directive_is_usable_in_queries_where_each_service_allows_it {α : Type} [DecidableEq α] (isTS : α → Bool)
+    (l1 l2 r : List α) (h : Ml.mergeLocs isTS l1 l2 = some r) (x : α) (hx : isTS x = false) :
+    (x ∈ r ↔ x ∈ l1) ∧ (x ∈ r ↔ x ∈ l2) := Ml.mergeLocs_executable isTS l1 l2 r h x hx
+
+example : Ml.mergeLocs Ml.isTypeSystem ["FIELD", "OBJECT"] ["SCALAR", "FIELD"] = some ["FIELD", "OBJECT", "SCALAR"] := by decide
 
 end Props.C03
